@@ -194,6 +194,9 @@ class C14(core.Prop):
                 if veto:
                     if new != old:
                         return "veto-ignored: a vetoed write changed the value"
+                    if (op[0] == "setvalue" or len(op[1]["children"]) == 1) and vec_values(prev_state, vname) != vec_values(o["state"], vname):
+                        return "veto-ignored: a vetoed write changed other elements of the property (%s -> %s)" % (
+                            vec_values(prev_state, vname), vec_values(o["state"], vname))
                     if set_pubs:
                         return "veto-ignored: a vetoed write published an update"
                     if ch_calls or ch_ran:
@@ -272,6 +275,14 @@ def drvimpl_value(kind, x):
     if kind == "BLOB" and x is not None:
         return B(x[0], x[1])
     return x
+
+
+def vec_values(state, vname):
+    for g in state:
+        for v in g[2]:
+            if v[0] == vname:
+                return [e[2] for e in v[3]]
+    return None
 
 
 def elem_value(state, vname, idx):
